@@ -1,7 +1,7 @@
 ------------------------------ MODULE Boc_HdrFuzz ------------------------------
 (* S->C for C07: adversarial HEADERS.  TLC composes a header from every magic,   *)
 (* flag combination, reference width 1..4, offset width 1..8 and counters drawn  *)
-(* from byte patterns (1, 2, 256, 2^(8n-1), all ones, ...) for cells / roots /    *)
+(* from byte patterns (0, 1, 2, 256, 2^(8n-1), all ones, ...) for cells / roots /    *)
 (* tot_cells_size, followed by a short tail (nothing, a few zero bytes, one valid *)
 (* cell), and labels each with the guard of Boc!Parse it fails.  Inputs of a few  *)
 (* bytes that announce up to 2^32 cells are exactly what the allocation clause of *)
@@ -21,7 +21,7 @@ VARIABLES mg, fl, sz, ob, cells, roots, tot, tail, out
 vars == <<mg, fl, sz, ob, cells, roots, tot, tail, out>>
 Hash(x) == (Len(x) * 7 + FoldLeft(LAMBDA a, b : (a * 31 + b) % 9973, 1, x)) % 9973
 Init == /\ mg \in Magics /\ fl \in Flags /\ sz \in 1..4 /\ ob \in {1, 2, 3, 4, 8}
-        /\ cells \in Pats(sz) /\ roots \in {Zs(sz - 1) \o <<1>>, Fs(sz)} /\ tot \in Pats(ob) /\ tail \in Tails
+        /\ cells \in Pats(sz) \cup {Zs(sz)} /\ roots \in {Zs(sz - 1) \o <<1>>, Fs(sz), Zs(sz)} /\ tot \in Pats(ob) \cup {Zs(ob)} /\ tail \in Tails
         /\ (Hash(mg \o cells \o tot \o tail) + fl + 3 * sz + 5 * ob) % Stride = 0
         /\ out = "todo"
 Bytes == mg \o <<(IF mg[1] = 181 THEN fl ELSE 0) + sz, ob>> \o cells \o roots \o Zs(sz) \o tot \o tail
